@@ -213,24 +213,24 @@ theorem siteParams_pin : Gen.CacheMaint.siteParams = [("init_a0", ["xruntime_Par
   ("cache_StopAllGoroutines_a0", []),
   ("cache_StopAllGoroutines_r0", ["stopped"])] := by rfl
 
-theorem shape_pin : Gen.CacheMaint.shape = [("init", [0, 0, 4, 0, 0]),
-  ("cache_afterRead", [3, 0, 1, 0, 0]),
-  ("cache_CleanUp", [0, 0, 0, 0, 0]),
-  ("cache_shouldDrainBuffers", [0, 0, 1, 3, 0]),
-  ("cache_skipReadBuffer", [0, 0, 0, 1, 0]),
-  ("cache_afterWriteTask", [2, 1, 1, 0, 0]),
-  ("cache_scheduleAfterWrite", [1, 0, 1, 0, 0]),
-  ("cache_scheduleDrainBuffers", [4, 0, 1, 0, 0]),
-  ("cache_drainBuffers", [2, 0, 0, 0, 0]),
-  ("cache_performCleanUp", [0, 0, 0, 0, 0]),
-  ("cache_rescheduleCleanUpIfIncomplete", [2, 0, 0, 0, 0]),
-  ("cache_maintenance", [1, 0, 0, 0, 0]),
-  ("cache_drainReadBuffer", [1, 0, 0, 0, 0]),
-  ("cache_drainWriteBuffer", [3, 1, 2, 0, 0]),
-  ("cache_periodicCleanUp", [0, 0, 1, 0, 0]),
-  ("cache_SetMaximum", [1, 0, 0, 0, 0]),
-  ("cache_GetMaximum", [2, 0, 1, 2, 0]),
-  ("cache_WeightedSize", [2, 0, 1, 2, 0]),
-  ("cache_StopAllGoroutines", [1, 0, 1, 1, 0])] := by rfl
+theorem shape_pin : Gen.CacheMaint.shape = [("init", [0, 0, 4, 0, 0, 0]),
+  ("cache_afterRead", [3, 0, 1, 0, 0, 0]),
+  ("cache_CleanUp", [0, 0, 0, 0, 0, 0]),
+  ("cache_shouldDrainBuffers", [0, 0, 1, 3, 0, 0]),
+  ("cache_skipReadBuffer", [0, 0, 0, 1, 0, 0]),
+  ("cache_afterWriteTask", [2, 1, 1, 0, 0, 0]),
+  ("cache_scheduleAfterWrite", [1, 0, 1, 0, 0, 0]),
+  ("cache_scheduleDrainBuffers", [4, 0, 1, 0, 0, 0]),
+  ("cache_drainBuffers", [2, 0, 0, 0, 0, 0]),
+  ("cache_performCleanUp", [0, 0, 0, 0, 0, 0]),
+  ("cache_rescheduleCleanUpIfIncomplete", [2, 0, 0, 0, 0, 0]),
+  ("cache_maintenance", [1, 0, 0, 0, 0, 0]),
+  ("cache_drainReadBuffer", [1, 0, 0, 0, 0, 0]),
+  ("cache_drainWriteBuffer", [3, 1, 2, 0, 0, 0]),
+  ("cache_periodicCleanUp", [0, 0, 1, 0, 0, 0]),
+  ("cache_SetMaximum", [1, 0, 0, 0, 0, 0]),
+  ("cache_GetMaximum", [2, 0, 1, 2, 0, 0]),
+  ("cache_WeightedSize", [2, 0, 1, 2, 0, 0]),
+  ("cache_StopAllGoroutines", [1, 0, 1, 1, 0, 0])] := by rfl
 
 end OtterVerif.Pin.CacheMaint
